@@ -9,6 +9,7 @@ use serde_json::{json, Value};
 use std::collections::{BTreeMap, HashMap, HashSet};
 use std::fmt::Debug;
 use std::path::{Path, PathBuf};
+use std::sync::OnceLock;
 use std::sync::atomic::{AtomicBool, AtomicUsize, Ordering};
 use std::sync::Mutex;
 use std::thread::ThreadId;
@@ -385,11 +386,24 @@ impl Report {
             }
             return 1;
         }
+        if std::env::var("AVH_FDS").is_ok() {
+            let n = std::fs::read_dir("/proc/self/fd").map(|d| d.count()).unwrap_or(0);
+            let evals: usize = self.parts.iter().map(|p| p.evaluations).sum();
+            eprintln!("[fds] {} open file descriptors after {} cases", n, evals);
+        }
         let distinct: usize = self.parts.iter().map(|p| p.distinct_nontrivial).sum();
         if distinct < self.min_nontrivial {
             println!(
                 "INCONCLUSIVE property={} distinct_nontrivial={} below floor {}",
                 self.property, distinct, self.min_nontrivial
+            );
+            return 2;
+        }
+        // a part in which most cases could not be judged has not explored what it claims
+        if let Some(p) = self.parts.iter().find(|p| p.evaluations >= 20 && p.inconclusive * 2 > p.evaluations) {
+            println!(
+                "INCONCLUSIVE property={} part {}: {} of {} cases could not be judged (see the [note] lines)",
+                self.property, p.name, p.inconclusive, p.evaluations
             );
             return 2;
         }
@@ -402,6 +416,42 @@ impl Report {
         );
         0
     }
+}
+
+// ---------------------------------------------------------------------------------------------
+// handles that must stay alive for the rest of a session although nobody needs them any more
+
+/// Keep `x` alive for now and drop it a few seconds later on a helper thread. Used instead of
+/// `mem::forget` for channels whose `Drop` would put a Channel.Close on the wire in the middle
+/// of a session: a forgotten channel keeps its connection's readiness queue (two file
+/// descriptors) alive for ever, which exhausts the descriptor limit in long runs.
+pub fn bury<T: Send + 'static>(x: T) {
+    static GRAVEYARD: OnceLock<Mutex<Vec<(Instant, Box<dyn Send>)>>> = OnceLock::new();
+    static REAPER: OnceLock<()> = OnceLock::new();
+    let g = GRAVEYARD.get_or_init(|| Mutex::new(Vec::new()));
+    g.lock().unwrap_or_else(|e| e.into_inner()).push((Instant::now(), Box::new(x)));
+    REAPER.get_or_init(|| {
+        let _ = std::thread::Builder::new().name("avh-reaper".into()).spawn(move || loop {
+            std::thread::sleep(Duration::from_millis(250));
+            let due: Vec<Box<dyn Send>> = {
+                let mut v = g.lock().unwrap_or_else(|e| e.into_inner());
+                let mut due = Vec::new();
+                let mut i = 0;
+                while i < v.len() {
+                    if v[i].0.elapsed() > Duration::from_secs(3) {
+                        due.push(v.swap_remove(i).1);
+                    } else {
+                        i += 1;
+                    }
+                }
+                due
+            };
+            if !due.is_empty() {
+                // a Drop that talks to a connection which is still alive may block: not here
+                let _ = std::thread::Builder::new().name("avh-reaper-drop".into()).spawn(move || drop(due));
+            }
+        });
+    });
 }
 
 // ---------------------------------------------------------------------------------------------
@@ -612,6 +662,7 @@ struct Agg<C> {
     evaluations: usize,
     nontrivial: usize,
     inconclusive: usize,
+    inconclusive_reasons: BTreeMap<String, usize>,
     distinct: HashSet<u64>,
     labels: BTreeMap<String, usize>,
     samples: Vec<(u64, Value)>,
@@ -747,6 +798,7 @@ where
                 evaluations: 0,
                 nontrivial: 0,
                 inconclusive: 0,
+                inconclusive_reasons: BTreeMap::new(),
                 distinct: HashSet::new(),
                 labels: BTreeMap::new(),
                 samples: Vec::new(),
@@ -830,7 +882,11 @@ where
                         {
                             let mut g = shared_ref.results.lock().unwrap_or_else(|e| e.into_inner());
                             g.evaluations += 1;
-                            if out.inconclusive.is_some() {
+                            if let Some(why) = &out.inconclusive {
+                                let key: String = why.chars().take(120).collect();
+                                if g.inconclusive_reasons.len() < 12 || g.inconclusive_reasons.contains_key(&key) {
+                                    *g.inconclusive_reasons.entry(key).or_default() += 1;
+                                }
                                 g.inconclusive += 1;
                             }
                             for l in &out.labels {
@@ -877,6 +933,12 @@ where
         pr.evaluations = agg.evaluations;
         pr.nontrivial = agg.nontrivial;
         pr.inconclusive = agg.inconclusive;
+        if !agg.inconclusive_reasons.is_empty() {
+            for (why, n) in &agg.inconclusive_reasons {
+                eprintln!("[note] part {}: {} case(s) inconclusive: {}", self.name, n, why);
+            }
+            pr.extra.insert("inconclusive_reasons".into(), json!(agg.inconclusive_reasons));
+        }
         pr.distinct_nontrivial = agg.distinct.len();
         pr.labels = agg.labels;
         pr.samples = agg.samples.into_iter().map(|(_, v)| v).collect();
